@@ -46,13 +46,14 @@ func (s *Solutions) Next() bool {
 		return false
 	}
 	s.more <- true
-	var ok bool
-	s.env, ok = <-s.next
+	env, ok := <-s.next
 	if !ok {
-		// The search is over and nobody receives from s.more any more.
+		// The search is over and nobody receives from s.more any more. Scan keeps reporting the last answer.
 		s.done = true
+		return false
 	}
-	return ok
+	s.env = env
+	return true
 }
 
 // Scan copies the variable values of the current solution into the specified struct/map.
